@@ -12,6 +12,11 @@
 // the real assert; the property is about control flow and lock use, not about values).
 use super::*;
 
+/// `std::hint::spin_loop` / `thread::yield_now` are scheduling hints without semantics; Kani does not model the
+/// pause intrinsic, so every harness replaces the hint by this no-op (a reader that spins is then caught by the
+/// unwinding assertion of its loop instead of stopping the verifier).
+fn spin_hint_is_a_no_op() {}
+
 const VOUCH: raffle::VouchingParameters = raffle::VouchingParameters::parse_or_die(
     "VOUCH-773ec2a0e62c20cd-f9e079b78e895091-fc1da7b1b77c57cb-594b9cce3091464a",
 );
@@ -49,6 +54,8 @@ fn any_state() -> (AtomicBaseTime, (u64, raffle::Voucher)) {
 /// published pair, never panics -- and never touches the lock (taking it would block forever on the held
 /// mutex, which Kani reports).
 #[kani::proof]
+#[kani::stub(std::hint::spin_loop, spin_hint_is_a_no_op)]
+#[kani::stub(std::thread::yield_now, spin_hint_is_a_no_op)]
 #[kani::unwind(2)]
 fn c18_snapshot_with_writer_suspended_holding_lock() {
     let (abt, pair) = any_state();
@@ -62,6 +69,8 @@ fn c18_snapshot_with_writer_suspended_holding_lock() {
 
 /// snapshot() with no writer inside: same guarantees.
 #[kani::proof]
+#[kani::stub(std::hint::spin_loop, spin_hint_is_a_no_op)]
+#[kani::stub(std::thread::yield_now, spin_hint_is_a_no_op)]
 #[kani::unwind(2)]
 fn c18_snapshot_lock_free() {
     let (abt, pair) = any_state();
@@ -72,6 +81,8 @@ fn c18_snapshot_lock_free() {
 
 /// try_update(): returns false instead of waiting whenever another writer holds the lock, and changes nothing.
 #[kani::proof]
+#[kani::stub(std::hint::spin_loop, spin_hint_is_a_no_op)]
+#[kani::stub(std::thread::yield_now, spin_hint_is_a_no_op)]
 #[kani::unwind(2)]
 fn c18_try_update_with_lock_held() {
     let (abt, _pair) = any_state();
@@ -87,6 +98,8 @@ fn c18_try_update_with_lock_held() {
 /// try_update() with the lock free: takes it without waiting, applies the update iff it is not older than
 /// the current base time, releases the lock; a following snapshot sees the newest pair.
 #[kani::proof]
+#[kani::stub(std::hint::spin_loop, spin_hint_is_a_no_op)]
+#[kani::stub(std::thread::yield_now, spin_hint_is_a_no_op)]
 #[kani::unwind(2)]
 fn c18_try_update_lock_free() {
     let (abt, pair) = any_state();
@@ -145,6 +158,8 @@ fn load_with_interference(a: &AtomicU64, order: Ordering) -> u64 {
 }
 
 #[kani::proof]
+#[kani::stub(std::hint::spin_loop, spin_hint_is_a_no_op)]
+#[kani::stub(std::thread::yield_now, spin_hint_is_a_no_op)]
 #[kani::unwind(@@UW@@)]
 #[kani::stub(std::sync::Mutex::lock, forbidden_lock)]
 #[kani::stub(std::sync::atomic::Atomic::<u64>::load, load_with_interference)]
@@ -171,6 +186,8 @@ fn c18_snapshot_under_interfering_writes() {
 
 /// try_update never reaches the blocking lock() either, whatever the lock's state.
 #[kani::proof]
+#[kani::stub(std::hint::spin_loop, spin_hint_is_a_no_op)]
+#[kani::stub(std::thread::yield_now, spin_hint_is_a_no_op)]
 #[kani::unwind(2)]
 #[kani::stub(std::sync::Mutex::lock, forbidden_lock)]
 fn c18_try_update_never_blocks() {
